@@ -280,6 +280,15 @@ def _c04_specials():
     nums = base + [M.Triple(s1, G.EX + "n", M.Lit("5", dt=M.XSD_INTEGER)), M.Triple(s2, G.EX + "n", M.Lit("7", dt=M.XSD_INTEGER))]
     for fmt in ("turtle", "turtle_iter"):
         out.append(("bare-numbers", SU.render_input(nums, fmt, 4), allc, 0))
+    # bare numeric tokens at the edges of what float() accepts (valid Turtle doubles / decimals / integers): out of IEEE range, huge
+    # integers, signed zero, exponents without fraction
+    for toks in (["1e999", "-2.5E400"], ["1E400", "4"], ["123456789012345678901234567890", "0"], ["-0.0", "+7"], ["1e-999", "2.0"], ["0.5", "5.0"]):
+        ttl = ("@prefix ex: <%s> .\n<%s> a <%s> .\n<%s> a <%s> .\n<%s> <%sn> %s .\n<%s> <%sn> %s .\n"
+               % (G.EX, s1.iri, G.CLASS_A, s2.iri, G.CLASS_A, s1.iri, G.EX, toks[0], s2.iri, G.EX, toks[1]))
+        for extra in ({}, {"infer_numeric_types_for_untyped_literals": False}):
+            out.append(("bare-number-edges", {"format": "turtle_iter", "text": ttl}, _merge(allc, extra), 0))
+        tsv = "".join("<%s>\t<%s>\t<%s>\n" % (x.iri, ty, G.CLASS_A) for x in (s1, s2)) + "<%s>\t<%sn>\t%s\n<%s>\t<%sn>\t%s\n" % (s1.iri, G.EX, toks[0], s2.iri, G.EX, toks[1])
+        out.append(("bare-number-edges", {"format": "tsv_spo", "text": tsv}, allc, 0))
     tricky = base + [M.Triple(s1, G.PROP_P, M.Lit("z z")), M.Triple(s2, G.PROP_P, M.Lit('q"uo\\te')), M.Triple(s2, G.PROP_P, M.Lit("50%")),
                      M.Triple(s2, G.PROP_P, M.Lit("a # b")), M.Triple(s1, G.PROP_P, M.Lit("v", dt=U.DT_FOO))]
     for fmt in ("nt", "turtle", "turtle_iter"):
